@@ -113,7 +113,77 @@ def judge(run):
     return out
 
 
+def run_two_nodes(case):
+    """Two node objects of one process with the same local identity (the same Diameter node reaching two peers), each open towards
+    its own peer; both receive a base request at the same moment and one state machine thread is parked at the n-th source line it
+    executes from then on (for 0.05 virtual s) while the other goes on.  Every answer on a connection must be the answer of the
+    request received on *that* connection."""
+    import struct
+    from ..world import World, LOCAL, PEER, peer_cea, peer_dwr, peer_dpr
+    from .. import refdict
+    refdict.all_classes()
+    vs, info = [], {}
+    with World(role="client", apps=["s6a"], line_holds=True, max_steps=900000) as w:
+        if not w.open_connection():
+            return [V("harness: connection setup failed", "harness/setup", w.state())], info
+        sock1 = w.sock
+        from bromelia.setup import Diameter
+        cfg = {"MODE": "CLIENT", "TRANSPORT_TYPE": "TCP",
+               "APPLICATIONS": [{"vendor_id": struct.pack(">I", 10415), "app_id": struct.pack(">I", 16777251)}],
+               "LOCAL_NODE_HOSTNAME": LOCAL["host"], "LOCAL_NODE_REALM": LOCAL["realm"], "LOCAL_NODE_IP_ADDRESS": LOCAL["ip"],
+               "LOCAL_NODE_PORT": LOCAL["port"] + 1, "PEER_NODE_HOSTNAME": PEER["host"], "PEER_NODE_REALM": PEER["realm"],
+               "PEER_NODE_IP_ADDRESS": PEER["ip"], "PEER_NODE_PORT": PEER["port"] + 1, "WATCHDOG_TIMEOUT": 30}
+        d2 = Diameter(config=cfg)
+        n0 = len(w.net.socks)
+        w.call("app-start-2", lambda: d2.start())
+        second = lambda: next((s_ for s_ in w.net.socks[n0:] if s_.kind == "stream" and s_.state != "new"), None)
+        w.run(lambda: second() is not None and any(m["cmd"] == 257 for m in w.sent_messages(second())), 10.0)
+        sock2 = second()
+        if sock2 is None:
+            return [V("harness: second node did not connect", "harness/setup-2", "")], info
+        cer2 = next(m for m in w.sent_messages(sock2) if m["cmd"] == 257)
+        w.feed(peer_cea(cer2["hbh"], cer2["e2e"]), sock=sock2)
+        w.run(lambda: d2.is_open(), 10.0)
+        if not d2.is_open():
+            return [V("harness: second node did not open", "harness/setup-2", d2.get_current_state())], info
+        mk = peer_dwr if case["req"] == "dwr" else peer_dpr
+        ids = {id(sock1): (0x0A0A0A01, 0xE0E0E001), id(sock2): (0x0B0B0B02, 0xF0F0F002)}
+        before = w.sched.holds_taken
+        w.sched.hold("client_psm_thread", "line:*", case["n"], lambda: False, 0.05)
+        w.feed(mk(*ids[id(sock1)]), sock=sock1)
+        w.feed(mk(*ids[id(sock2)]), sock=sock2)
+        cmd = 280 if case["req"] == "dwr" else 282
+        answers = lambda s_: [m for m in w.sent_messages(s_) if m["cmd"] == cmd and not m["flags"] & 0x80]
+        w.run(lambda: len(answers(sock1)) >= 1 and len(answers(sock2)) >= 1, 5.0)
+        w.run(lambda: False, 0.2)
+        info["parked"] = w.sched.holds_taken > before
+        for name, s_ in (("first", sock1), ("second", sock2)):
+            got = [(m["hbh"], m["e2e"]) for m in answers(s_)]
+            if got != [ids[id(s_)]]:
+                other = ids[id(sock2 if s_ is sock1 else sock1)]
+                why = "ids-of-the-request-received-by-the-other-node-object" if other in got else ("missing" if not got else "wrong-ids")
+                vs.append(V("every base answer carries the identifiers of the request it answers - also when another node object of the "
+                            "process answers a request at the same time", f"two-nodes/{'DWA' if cmd == 280 else 'DPA'}/{why}",
+                            f"{name} connection: answers {[(hex(a), hex(b)) for a, b in got]}, request {tuple(map(hex, ids[id(s_)]))}; line {case['n']}"))
+        world = w
+    if world.unreaped:
+        raise RuntimeError(f"harness could not reap threads: {world.unreaped}")
+    return vs[:1], info
+
+
+def _two_nodes_sweep(args):
+    common.bootstrap()
+    col = Collector(PID, RULE)
+    for req, n in args:
+        case = {"kind": "two-nodes", "req": req, "n": n}
+        vs, info = run_two_nodes(case)
+        col.record(case, vs, nontrivial=bool(info.get("parked")), classes=["two-node-objects-answering-at-once"])
+    return col
+
+
 def run_case(case):
+    if case.get("kind") == "two-nodes":
+        return run_two_nodes(case)[0]
     run, info = c06.execute(case)
     # C06 violations that make the history meaningless for C07 (state divergence) are not C07 verdicts
     return judge(run)
@@ -154,9 +224,12 @@ def _collect(shard, seed, n):
 
 def main(ctx):
     col = common.run_shards(_collect, 8 if ctx.quick else 16, ctx.seed, n=120 if ctx.quick else 2500)
+    pts = [(req, n) for req in ("dwr", "dpr") for n in range(1, 301 if ctx.quick else 601, 2 if ctx.quick else 1)]
+    for part in common.pmap(_two_nodes_sweep, [pts[i::16] for i in range(16)]):
+        col.merge(part)
     for path, rec in common.load_replays(PID):
         col.record(rec["case"], run_case(rec["case"]), nontrivial=True, classes=["replay"])
-    ctx.required_classes = ["two-requests-in-one-segment", "reconnect", "outbound-backlog", "several-base-requests", "retransmitted-request-same-e2e-new-hbh"]
+    ctx.required_classes = ["two-node-objects-answering-at-once", "two-requests-in-one-segment", "reconnect", "outbound-backlog", "several-base-requests", "retransmitted-request-same-e2e-new-hbh"]
     ctx.assumptions = ["answered requests = valid CER (Closed responder / Open), valid DWR and valid DPR received while Open, as decided by the "
                        "C06 reference model; fair schedule with virtual-time settling"]
 
